@@ -176,6 +176,12 @@ def run(tier):
     for d, sql, exp in DIALECT_SPELLINGS:
         cases.append({"sql": sql, "dialect": d, "want": []})
         meta.append(("dialect_table_spelling", exp, None, None))
+    # the rename position under every dialect (each has its own parse-tree shape for ALTER TABLE ... RENAME TO)
+    from . import c01 as _c01
+    for d in _c01.dialects():
+        cases.append({"sql": "insert into stg_t select c1 from src_t; alter table stg_t rename to mid_t; insert into fin_t select c1 from mid_t", "dialect": d, "want": []})
+        meta.append(("column_written_table_renamed_then_read:every_dialect", {"source": ["<default>.src_t"], "target": ["<default>.fin_t"], "intermediate": ["<default>.mid_t"],
+                                                                           "pairs": [["<default>.src_t.c1", "<default>.fin_t.c1"]]}, None, None))
     if tier == "thorough":
         from . import c01
         for d in c01.dialects():
